@@ -83,6 +83,19 @@ func c04(r *hx.Run) {
 			r.Violation(fmt.Sprintf("deactivation-differs-from-reference:impl=%v", rm.Deactivated), "base|"+HistKey(placed),
 				fmt.Sprintf("history %v: the processor reports deactivated=%v, the reference %v", placedDesc(placed), rm.Deactivated, st.Deactivated), nil)
 		}
+		// histories in which the reference applies a recover: the whole result must be the reference's (the document consists of
+		// the recover's own content plus later updates chained from it, nothing else)
+		if st != nil {
+			for _, id := range st.Applied {
+				if pool.Get(id).Type == operation.TypeRecover {
+					if impl, model := ProjectImpl(rm, err), ProjectModel(st, nil); impl != model {
+						r.Violation("recover-state-differs-from-reference:"+diffFields(impl, model), "base|"+HistKey(placed)+"|model",
+							fmt.Sprintf("history %v\n  impl : %s\n  model: %s", placedDesc(placed), impl, model), nil)
+					}
+					break
+				}
+			}
+		}
 		mu.Lock()
 		if st != nil && st.Deactivated {
 			deactStates = append(deactStates, placed)
